@@ -11,6 +11,24 @@ pub const FORMAT: &str = if cfg!(feature = "fmt_json") {
     "json5"
 };
 
+/// Which feature set the in-process code generator is compiled with ("" = the default one of the test crates).
+pub const VARIANT: &str = if cfg!(feature = "macro_cfg_dyn_hydrate") {
+    "dynhyd"
+} else if cfg!(feature = "macro_cfg_dyn_ssr") {
+    "dynssr"
+} else {
+    ""
+};
+
+/// Name of this binary's evidence part / digest file / replay dispatch.
+pub fn label() -> String {
+    if VARIANT.is_empty() {
+        FORMAT.to_string()
+    } else {
+        format!("{FORMAT}_{VARIANT}")
+    }
+}
+
 pub fn exts() -> &'static [&'static str] {
     match FORMAT {
         "json" => &["json"],
